@@ -3,6 +3,9 @@
 
   The model moves the node payload as the C code does: one block of
   `sizeof(struct Header) + ksize + sizeof(struct Header) + vsize` bytes from the predecessor into the node (`relocate`).
+  The offsets and the width are the expressions the source has now (CelloGen.Tree, evaluated by `Lay.keyOff` … `Lay.moveLen`);
+  every lemma here takes `LayoutOk` — what those expressions must evaluate to — as a hypothesis (proved in Props/C03.lean:
+  `C03_layout_current_source`).
   Here: when the predecessor's key and value have the sizes of the Tree's key and value types, that block is the whole
   entry, so the node ends up holding exactly the predecessor's key and value (`relocate_fits`), whatever the width of the
   header, of the key and of the value.  A shorter block does not (`relocate_short_value`).
@@ -10,7 +13,7 @@
   whose entries fit the layout they are the same functions (`remHere_eq`, `remAt_eq`), and the structural lemmas
   (RBRefine, RBDel) are stated about them.
 -/
-import Cello.RBTree
+import CelloProofs.Lemmas.RBSource
 
 namespace Cello.RB
 variable {α β : Type}
@@ -19,22 +22,69 @@ variable {α β : Type}
 def FitsLay [Packed α] [Packed β] (y : Lay) (e : α × β) : Prop :=
   (Packed.words e.1).length = y.ks ∧ (Packed.words e.2).length = y.vs
 
-theorem entryWords_length [Packed α] [Packed β] (y : Lay) (e : α × β) (h : FitsLay y e) :
-    (entryWords y e).length = y.entryLen := by
-  simp [entryWords, Lay.entryLen, h.1, h.2]; omega
+/-- a store of as many words as the part `m` it replaces, right after the prefix `a` -/
+theorem writeAt_mid (a m c ws : List Word) (off : Nat) (ha : a.length = off) (h : ws.length = m.length) :
+    writeAt off ws (a ++ (m ++ c)) = a ++ (ws ++ c) := by
+  subst ha
+  unfold writeAt
+  have h0 : a.length + ws.length - (a ++ (m ++ c)).length = 0 := by
+    simp only [List.length_append, h]; omega
+  have h1 : (a ++ (m ++ c)).drop (a.length + ws.length) = c := by
+    rw [← List.append_assoc]
+    exact List.drop_left' (by simp [h])
+  rw [h0, List.replicate_zero, List.append_nil, List.take_left' rfl, h1, List.append_assoc]
+
+theorem entryWords_std [Packed α] [Packed β] (hl : LayoutOk) (y : Lay) (e : α × β) (h : FitsLay y e) :
+    entryWords y e = List.replicate y.hdr (Word.hdr true) ++ Packed.words e.1 ++
+      (List.replicate y.hdr (Word.hdr false) ++ Packed.words e.2) := by
+  obtain ⟨h1, h2, h3, h4, h5, _⟩ := hl y
+  unfold entryWords
+  rw [h1, h2, h3, h4, h5]
+  have z : List.replicate (y.hdr + y.ks + y.hdr + y.vs) (Word.int 0) =
+      [] ++ (List.replicate y.hdr (Word.int 0) ++ (List.replicate y.ks (Word.int 0) ++ (List.replicate y.hdr (Word.int 0) ++
+        List.replicate y.vs (Word.int 0)))) := by
+    simp; omega
+  rw [z, writeAt_mid [] _ _ _ 0 rfl (by simp)]
+  -- value header
+  rw [show ([] : List Word) ++ (List.replicate y.hdr (Word.hdr true) ++ (List.replicate y.ks (Word.int 0) ++
+        (List.replicate y.hdr (Word.int 0) ++ List.replicate y.vs (Word.int 0)))) =
+      (List.replicate y.hdr (Word.hdr true) ++ List.replicate y.ks (Word.int 0)) ++
+        (List.replicate y.hdr (Word.int 0) ++ List.replicate y.vs (Word.int 0)) by simp,
+    writeAt_mid _ _ _ _ (y.hdr + y.ks) (by simp) (by simp)]
+  -- key
+  rw [show (List.replicate y.hdr (Word.hdr true) ++ List.replicate y.ks (Word.int 0)) ++
+        (List.replicate y.hdr (Word.hdr false) ++ List.replicate y.vs (Word.int 0)) =
+      List.replicate y.hdr (Word.hdr true) ++ (List.replicate y.ks (Word.int 0) ++
+        (List.replicate y.hdr (Word.hdr false) ++ List.replicate y.vs (Word.int 0))) by simp,
+    writeAt_mid _ _ _ _ y.hdr (by simp) (by simp [h.1])]
+  -- value
+  rw [show List.replicate y.hdr (Word.hdr true) ++ (Packed.words e.1 ++
+        (List.replicate y.hdr (Word.hdr false) ++ List.replicate y.vs (Word.int 0))) =
+      (List.replicate y.hdr (Word.hdr true) ++ Packed.words e.1 ++ List.replicate y.hdr (Word.hdr false)) ++
+        (List.replicate y.vs (Word.int 0) ++ []) by simp,
+    writeAt_mid _ _ _ _ (y.hdr + y.ks + y.hdr) (by simp [h.1]; omega) (by simp [h.2])]
+  simp
+
+theorem entryWords_length [Packed α] [Packed β] (hl : LayoutOk) (y : Lay) (e : α × β) (h : FitsLay y e) :
+    (entryWords y e).length = y.moveLen := by
+  rw [entryWords_std hl y e h, (hl y).2.2.2.2.2]
+  simp [h.1, h.2]; omega
 
 theorem memcpyW_all (n : Nat) (dst src : List Word) (h : src.length = n) :
     memcpyW n dst src = src ++ dst.drop n := by
   simp [memcpyW, ← h]
 
-theorem keyAt_entry [Packed α] [Packed β] (y : Lay) (e : α × β) (tail : List Word) (h : FitsLay y e) :
+theorem keyAt_entry [Packed α] [Packed β] (hl : LayoutOk) (y : Lay) (e : α × β) (tail : List Word) (h : FitsLay y e) :
     keyAt y (entryWords y e ++ tail) = Packed.words e.1 := by
-  unfold keyAt entryWords Lay.keyOff
-  rw [List.append_assoc, List.append_assoc, List.drop_left' (by simp), List.take_left' h.1]
+  rw [entryWords_std hl y e h]
+  unfold keyAt
+  rw [(hl y).2.1, List.append_assoc, List.append_assoc, List.drop_left' (by simp), List.take_left' h.1]
 
-theorem valAt_entry [Packed α] [Packed β] (y : Lay) (e : α × β) (tail : List Word) (h : FitsLay y e) :
+theorem valAt_entry [Packed α] [Packed β] (hl : LayoutOk) (y : Lay) (e : α × β) (tail : List Word) (h : FitsLay y e) :
     valAt y (entryWords y e ++ tail) = Packed.words e.2 := by
-  unfold valAt entryWords Lay.valOff
+  rw [entryWords_std hl y e h]
+  unfold valAt
+  rw [(hl y).2.2.2.1]
   have : (List.replicate y.hdr (Word.hdr true) ++ Packed.words e.1 ++
       (List.replicate y.hdr (Word.hdr false) ++ Packed.words e.2)) ++ tail =
       (List.replicate y.hdr (Word.hdr true) ++ Packed.words e.1 ++ List.replicate y.hdr (Word.hdr false)) ++
@@ -44,11 +94,11 @@ theorem valAt_entry [Packed α] [Packed β] (y : Lay) (e : α × β) (tail : Lis
 /-- **the memcpy of `Tree_Rem` carries the whole entry**: if the predecessor's key and value have the sizes of the Tree's
     key and value types, the node holds exactly that key and that value afterwards — for every header width, key width
     and value width, and whatever the node held before. -/
-theorem relocate_fits [Packed α] [Packed β] [LawfulPacked α] [LawfulPacked β] (y : Lay) (dst src : α × β)
+theorem relocate_fits [Packed α] [Packed β] [LawfulPacked α] [LawfulPacked β] (hl : LayoutOk) (y : Lay) (dst src : α × β)
     (h : FitsLay y src) : relocate y dst src = some src := by
   unfold relocate
   simp only
-  rw [memcpyW_all _ _ _ (entryWords_length y src h), keyAt_entry y src _ h, valAt_entry y src _ h,
+  rw [memcpyW_all _ _ _ (entryWords_length hl y src h), keyAt_entry hl y src _ h, valAt_entry hl y src _ h,
     LawfulPacked.ofWords_words, LawfulPacked.ofWords_words]
 
 /-- `Tree_Maximum` returns a node of the subtree -/
@@ -81,7 +131,7 @@ def remAtA (cmp : α → α → Ordering) : T α β → Path α β → α → Op
     | .lt => remAtA cmp l ({ dir := .L, c := c, k := nk, v := nv, sib := r } :: p) k
     | .gt => remAtA cmp r ({ dir := .Rt, c := c, k := nk, v := nv, sib := l } :: p) k
 
-theorem remHere_eq [Packed α] [Packed β] [LawfulPacked α] [LawfulPacked β] (y : Lay) (c : Color) (l : T α β)
+theorem remHere_eq [Packed α] [Packed β] [LawfulPacked α] [LawfulPacked β] (hy : LayoutOk) (y : Lay) (c : Color) (l : T α β)
     (nk : α) (nv : β) (r : T α β) (p : Path α β) (hl : ∀ e ∈ toList l, FitsLay y e) :
     remHere y c l nk nv r p = remHereA c l nk nv r p := by
   cases l with
@@ -95,9 +145,9 @@ theorem remHere_eq [Packed α] [Packed β] [LawfulPacked α] [LawfulPacked β] (
       | none => rfl
       | some pr =>
         simp only
-        rw [relocate_fits y (nk, nv) (pr.k, pr.v) (hl _ (maxLoc_mem _ _ _ hm))]
+        rw [relocate_fits hy y (nk, nv) (pr.k, pr.v) (hl _ (maxLoc_mem _ _ _ hm))]
 
-theorem remAt_eq [Packed α] [Packed β] [LawfulPacked α] [LawfulPacked β] (cmp : α → α → Ordering) (y : Lay)
+theorem remAt_eq [Packed α] [Packed β] [LawfulPacked α] [LawfulPacked β] (hy : LayoutOk) (cmp : α → α → Ordering) (y : Lay)
     (t : T α β) (p : Path α β) (k : α) (ht : ∀ e ∈ toList t, FitsLay y e) :
     remAt cmp y t p k = remAtA cmp t p k := by
   induction t generalizing p with
@@ -106,7 +156,7 @@ theorem remAt_eq [Packed α] [Packed β] [LawfulPacked α] [LawfulPacked β] (cm
     simp only [toList, List.mem_append, List.mem_cons] at ht
     simp only [remAt, remAtA]
     cases cmp nk k with
-    | eq => simp only; rw [remHere_eq y c l nk nv r p (fun e he => ht e (Or.inl he))]
+    | eq => simp only; rw [remHere_eq hy y c l nk nv r p (fun e he => ht e (Or.inl he))]
     | lt => exact ihl _ (fun e he => ht e (Or.inl he))
     | gt => exact ihr _ (fun e he => ht e (Or.inr (Or.inr he)))
 
@@ -121,20 +171,20 @@ theorem block_short (ps pd vs' vd : List Word) (d v : Nat) (hp : pd.length = ps.
 /-- **a shorter block does not carry the entry**: if only `n` words are moved and `n` ends inside the value
     (`valOff ≤ n ≤ entryLen`), the value read back is the predecessor's first `n - valOff` words followed by the node's
     own remaining words. -/
-theorem valAt_short [Packed α] [Packed β] (y : Lay) (dst src : α × β) (hd : FitsLay y dst) (hs : FitsLay y src)
+theorem valAt_short [Packed α] [Packed β] (hl : LayoutOk) (y : Lay) (dst src : α × β) (hd : FitsLay y dst) (hs : FitsLay y src)
     (n : Nat) (h1 : y.valOff ≤ n) (h2 : n ≤ y.entryLen) :
     valAt y (memcpyW n (entryWords y dst) (entryWords y src)) =
       (Packed.words src.2).take (n - y.valOff) ++ (Packed.words dst.2).drop (n - y.valOff) := by
-  have pre : ∀ e : α × β,
+  have pre : ∀ e : α × β, FitsLay y e →
       entryWords y e = (List.replicate y.hdr (Word.hdr true) ++ Packed.words e.1 ++ List.replicate y.hdr (Word.hdr false))
-        ++ Packed.words e.2 := by intro e; simp [entryWords]
+        ++ Packed.words e.2 := by intro e he; rw [entryWords_std hl y e he]; simp
   have hpl : ∀ e : α × β, FitsLay y e →
       (List.replicate y.hdr (Word.hdr true) ++ Packed.words e.1 ++ List.replicate y.hdr (Word.hdr false)).length
-        = y.valOff := by intro e he; simp [Lay.valOff, he.1]; omega
+        = y.valOff := by intro e he; rw [(hl y).2.2.2.1]; simp [he.1]; omega
   obtain ⟨d, rfl⟩ : ∃ d, n = y.valOff + d := ⟨n - y.valOff, by omega⟩
-  have hdv : d ≤ y.vs := by simp [Lay.entryLen, Lay.valOff] at h2 ⊢; omega
+  have hdv : d ≤ y.vs := by rw [(hl y).2.2.2.2.1, (hl y).2.2.2.1] at h2; omega
   unfold valAt memcpyW
-  rw [pre dst, pre src, Nat.add_sub_cancel_left, ← hpl src hs]
+  rw [pre dst hd, pre src hs, Nat.add_sub_cancel_left, ← hpl src hs]
   exact block_short _ _ _ _ d y.vs (by rw [hpl dst hd, hpl src hs]) hs.2 hd.2 hdv
 
 end Cello.RB
